@@ -316,12 +316,12 @@ static var Range_Get(var self, var key) {
     return x;
   }
   
-  if (r->step  > 0 and (r->start + r->step * i) < r->stop) {
+  if (r->step  > 0 and i >= 0 and (r->start + r->step * i) < r->stop) {
     x->val = r->start  + r->step * i;
     return x;
   }
   
-  if (r->step  < 0 and (r->stop-1 + r->step * i) >= r->start) {
+  if (r->step  < 0 and i >= 0 and (r->stop-1 + r->step * i) >= r->start) {
     x->val = r->stop-1 + r->step * i;
     return x;
   }
